@@ -136,6 +136,19 @@ def run(case, j):
         lx, ly = _losses(est, X, Yfit)
         sc = float(est.score(X, Yfit))
         j.close("score == -(relative X loss + relative Y loss)", sc, -(lx + ly), 1e-9 * max(1.0, lx + ly))
+        # the same definition on data that were not in the fit (a held-out set, a cross-validation fold) and for latent
+        # coordinates supplied by the caller: there the residuals are not orthogonal to the reconstructions
+        zr = np.random.default_rng(case["pseed"] + 77 + kk)
+        Yz = zr.normal(size=(len(Z),) + np.shape(Yfit)[1:]) * max(float(np.abs(np.asarray(Yfit, dtype=float)).std()), 1e-300)
+        if float(np.linalg.norm(Z)) > 0 and float(np.linalg.norm(Yz)) > 0:
+            xz, yz = np.asarray(est.inverse_transform(TZ)), np.asarray(est.predict(T=TZ)).reshape(np.shape(Yz))
+            want = -(np.linalg.norm(Z - xz) ** 2 / np.linalg.norm(Z) ** 2 + np.linalg.norm(Yz - yz) ** 2 / np.linalg.norm(Yz) ** 2)
+            j.close("score(held-out Z, Y_Z) == -(relative X loss + relative Y loss) of the held-out set", float(est.score(Z, Yz)), want, 1e-9 * max(1.0, abs(want)))
+            Tu = T + 0.3 * sT * zr.normal(size=T.shape)
+            xu, yu = np.asarray(est.inverse_transform(Tu)), np.asarray(est.predict(T=Tu)).reshape(np.shape(Yfit))
+            wantu = -(np.linalg.norm(X - xu) ** 2 / np.linalg.norm(X) ** 2 + np.linalg.norm(np.asarray(Yfit) - yu) ** 2 / np.linalg.norm(Yfit) ** 2)
+            j.close("score(X, Y, T=latent coordinates of the caller) == the same two losses for those coordinates", float(est.score(X, Yfit, T=Tu)), wantu, 1e-9 * max(1.0, abs(wantu)))
+            j.note("scores_off_the_training_set")
         if oned:
             j.ok("1-D y: predictions are 1-D", np.ndim(est.predict(X)) == 1 and np.ndim(est.predict(T=T)) == 1, (np.shape(est.predict(X)), np.shape(est.predict(T=T))))
             j.ok("1-D y: pxy_ and pty_ are vectors", np.ndim(est.pxy_) == 1 and np.ndim(est.pty_) == 1 and est.pxy_.shape == (m,) and est.pty_.shape == (kk,), (np.shape(est.pxy_), np.shape(est.pty_)))
